@@ -1,5 +1,7 @@
 """Which harness modules decide which property."""
 PROPERTIES = {
+    "C04": ["harness.C04_incremental"],
+    "C05": ["harness.C05_protocol"],
     "C07": ["harness.C07_subscribe"],
     "C03": ["harness.C03_order"],
     "C02": ["harness.C02_execute"],
